@@ -58,6 +58,8 @@ ASSUMPTIONS = [
     'Float twins are compared with tolerances: rolling_window 1e-12, denoise stand-in 1e-12, savgol 1e-8 relative to the data scale (two different inversion algorithms on the normal equations), SVD identities 1e-9',
     'noise-reduction oracle only where the expected energy ratio is well below 1 (cadzow: dense layouts with >= 16 sites at rank 1, noise 0.3; svd: 4*rank <= min(nc, ns) and max >= 2*min): small cases reach ratios > 1 on the unchanged code',
     'the implementation is exercised as a program uses it: every oracle call is repeated on the SAME argument objects among other library calls and must return the result of the original values; an argument object modified in place is only recorded (voltage.stack adds the key stack_word to the caller\'s header dict on the unchanged tree), reported only through a wrong RESULT of a later call; results aliasing internal buffers are not demanded either way (rolling_window returns its input object for window_len < 3)',
+    'input forms (drawn independently of the values, tagged form:…, carried in every replay): rolling_window / non_uniform_savgol x and y as float64, float32, int16, int64, list of ints, list of floats; lp as the four array dtypes (a Python list has no .shape: AttributeError, unsupported by the API); smooth_interpolate_savgol float64 / float32 / list of floats; window_len / window / polynom as Python int only (non_uniform_savgol raises its own TypeError for numpy integers); venn samples int64/uint64/int32/uint32/float64, channels int64/int32/int16/uint64/float64 (arrays only: the functions assert .shape), scalar parameters as int / np.int64 / np.uint8 / float; stack data float64/float32/int64/int16 in C, Fortran and strided layout, labels int64/int16/uint8/float64/str/list; svd float64/float32, cadzow complex128/complex64 with x/y float64/float32/int64/list, in C/F/strided/read-only layout; keyword and positional spelling in the current signature order. Demands are on VALUES (1e-9 relative, 1e-6 for float32 / 1e-4 for single-precision SVD), never on the result dtype',
+    'two forms are recorded findings and excluded exactly: venn chunk_size given as a narrow numpy integer (np.uint8/np.int16: ch*chunk_size overflows, spikes silently lost) and voltage.stack on integer-typed traces with a non-integral aggregate (the mean is truncated into the integer dtype)',
     'lp: pad >= 0; the class lpad = ceil(n*pad) = 0 is a recorded finding (empty output) and is excluded from the length oracle only',
     'non_uniform_savgol with len(x) == window >= 3 raises UnboundLocalError: recorded finding, excluded from the reproduction oracle only',
     'labels of stack are integers and data are integer-valued float64 (sums exact, one IEEE division for nanmean); header=None',
@@ -114,6 +116,81 @@ def _patched(obj, name, new):
 def _err(e):
     return 'err ' + type(e).__name__
 
+
+
+# ---------------------------------------------------------------------------------------------
+# input forms: every legitimate representation of the same values / the same call must give the same answer
+# ---------------------------------------------------------------------------------------------
+F1D = ['float64', 'float32', 'int16', 'int64', 'list_int', 'list_float']
+MEMS = ['C', 'F', 'strided', 'readonly']
+
+
+def _int_form(f):
+    return f in ('int16', 'int32', 'int64', 'uint8', 'uint16', 'uint32', 'uint64', 'list_int')
+
+
+def _single(f):
+    return f in ('float32', 'complex64')
+
+
+def _form1d(v, f):
+    """The values `v` (already representable in the form) as dtype `f` / Python list."""
+    a = np.asarray(v)
+    if f == 'list_int':
+        return [int(t) for t in a]
+    if f == 'list_float':
+        return [float(t) for t in a]
+    if f == 'list':
+        return a.tolist()
+    return a.astype(f)
+
+
+def _mem(a, layout):
+    """The same array values in another memory layout."""
+    a = np.array(a)
+    if layout == 'F':
+        return np.asfortranarray(a)
+    if layout == 'strided' and a.ndim >= 1 and a.size:
+        return np.repeat(a, 2, axis=a.ndim - 1)[..., ::2]
+    if layout == 'readonly':
+        a.setflags(write=False)
+    return a
+
+
+def _spell(spelling, lead, named):
+    """(args, kwargs) for the call: `lead` positional always, `named` = [(name, value), …] in the order of the CURRENT
+    signature, passed by keyword or positionally."""
+    if spelling == 'pos':
+        return tuple(lead) + tuple(v for _, v in named), {}
+    return tuple(lead), {k: v for k, v in named}
+
+
+def _draw_form(rng, family):
+    ch = lambda opts: str(rng.choice(opts))     # noqa: E731
+    sp = ch(['kw', 'kw', 'pos'])
+    if family == 'rolling':
+        return {'x': ch(F1D), 'spelling': sp}
+    if family == 'lp':
+        return {'x': ch(['float64', 'float32', 'int16', 'int64']), 'spelling': sp}
+    if family == 'savgol':
+        return {'x': ch(F1D), 'y': ch(F1D), 'spelling': sp}
+    if family == 'sinterp':
+        return {'x': ch(['float64', 'float32', 'list_float']), 'spelling': sp}
+    if family == 'venn':
+        return {'samples': ch(['int64', 'uint64', 'int32', 'uint32', 'float64']), 'channels': ch(['int64', 'int32', 'int16', 'uint64', 'float64']),
+                'params': ch(['int', 'np.int64', 'np.uint8', 'float']), 'spelling': sp}
+    if family == 'stack':
+        return {'data': ch(['float64', 'float32', 'int64', 'int16']), 'word': ch(['int64', 'int16', 'uint8', 'float64', 'str', 'list']),
+                'mem': ch(['C', 'F', 'strided']), 'spelling': sp}
+    if family == 'svd':
+        return {'dtype': ch(['float64', 'float32']), 'mem': ch(MEMS), 'spelling': sp}
+    if family == 'cadzow':
+        return {'wav': ch(['complex128', 'complex64']), 'mem': ch(MEMS), 'xy': ch(['float64', 'float32', 'int64', 'list']), 'spelling': sp}
+    return {}
+
+
+def _form_tags(family, form):
+    return tuple(f'form:{family}:{k}={v}' for k, v in sorted((form or {}).items()))
 
 
 # ---------------------------------------------------------------------------------------------
@@ -313,14 +390,30 @@ def _brief(r):
 # venn
 # ---------------------------------------------------------------------------------------------
 def _venn_call(case):
+    """spikes_venn2/3 in the form of `case['form']`: dtype of the sample / channel arrays, type of the scalar parameters,
+    keyword or positional spelling (current signature order)."""
     from ibldsp import spiketrains
-    st = tuple(np.array([p[0] for p in s], dtype=int) for s in case['sorters'])
-    ct = tuple(np.array([p[1] for p in s], dtype=int) for s in case['sorters'])
+    form = case.get('form') or {}
+    fs_, fc_ = form.get('samples', 'int64'), form.get('channels', 'int64')
+    st = tuple(np.array([p[0] for p in s], dtype=int).astype(fs_) for s in case['sorters'])
+    ct = tuple(np.array([p[1] for p in s], dtype=int).astype(fc_) for s in case['sorters'])
     f = spiketrains.spikes_venn2 if len(st) == 2 else spiketrains.spikes_venn3
-    kw = dict(channels_binsize=case['cbin'], fs=case['fs'], num_channels=case['nch'])
-    kw['samples_binsize'] = case['sbin'] or None
-    kw['chunk_size'] = case['chunk'] or None
-    return f, (st, ct), kw
+    pt = form.get('params', 'int')
+
+    def P(v):
+        if v is None or pt == 'int':
+            return v
+        if pt == 'float':
+            return float(v)
+        if pt == 'np.uint8' and 0 <= v <= 255:
+            return np.uint8(v)
+        return np.int64(v)
+    def PC(v):       # chunk_size in a narrow numpy integer overflows `ch * chunk_size` silently: recorded finding, never generated
+        return np.int64(v) if (v is not None and pt == 'np.uint8') else P(v)
+    named = [('samples_binsize', P(case['sbin'] or None)), ('channels_binsize', P(case['cbin'])), ('fs', case['fs']),
+             ('num_channels', P(case['nch'])), ('chunk_size', PC(case['chunk'] or None))]
+    args, kw = _spell(form.get('spelling', 'kw'), (st, ct), named)
+    return f, args, kw
 
 
 def _venn_real(case):
@@ -450,20 +543,37 @@ def _stack_word(case):
     return w
 
 
+def _stack_args(case, word_list):
+    """(args, kwargs) of voltage.stack in the form of `case['form']` (data dtype / memory layout, label dtype, spelling)."""
+    form = case.get('form') or {}
+    data = _mem(np.array(case['data'], dtype=np.float64).astype(form.get('data', 'float64')), form.get('mem', 'C'))
+    fw = form.get('word', 'int64')
+    w = np.array(word_list, dtype=int)
+    if fw == 'uint8':
+        word = (w - min(0, int(w.min()))).astype(np.uint8)          # order-preserving shift to non-negative labels
+    elif fw == 'str':
+        rank = {v: i for i, v in enumerate(sorted(set(w.tolist())))}
+        word = np.array([f'L{rank[v]:03d}' for v in w.tolist()])     # lexicographic order = numeric order
+    elif fw == 'list':
+        word = w.tolist()
+    else:
+        word = w.astype(fw)
+    named = [('fcn_agg', np.sum)] if case['agg'] == 'sum' else ([('fcn_agg', np.nanmean)] if form.get('spelling') == 'pos' else [])
+    return _spell(form.get('spelling', 'kw'), (data, word), named)
+
+
 def _stack_impl(case):
     from ibldsp import voltage
-    data = np.array(case['data'], dtype=np.float64)
-    word = np.array(_stack_word(case), dtype=int)
+    wl_ = _stack_word(case)
+    args, kw = _stack_args(case, wl_)
     try:
-        if case['agg'] == 'sum':
-            st, fold = voltage.stack(data, word, fcn_agg=np.sum)
-        else:
-            st, fold = voltage.stack(data, word)
+        st, fold = voltage.stack(*args, **kw)
     except IndexError:
         return 'err IndexError'
     except Exception as e:
         return _err(e)
-    group = np.unique(word)     # the function does not return the labels; their order is observable through the rows
+    group = np.unique(np.array(wl_, dtype=int))     # the function does not return the labels; their order is observable through the rows
+    st = np.asarray(st, dtype=np.float64)
     if case['agg'] == 'sum':
         if not np.all(st == np.round(st)):
             return 'non-integer sums'
@@ -483,28 +593,31 @@ def oracle_stack(case):
     if case.get('mismatch'):
         return None
     from ibldsp import voltage
-    data = np.array(case['data'], dtype=np.float64)
-    word = np.array(case['word'], dtype=int)
+    form = case.get('form') or {}
+    if _int_form(form.get('data', 'float64')) and case['agg'] != 'sum':
+        return None       # recorded finding: integer traces + the default nanmean are truncated into the integer dtype
+    sargs, skw = _stack_args(case, case['word'])
+    data, word = np.array(case['data'], dtype=np.float64), np.array(case['word'], dtype=int)
     kw = {'fcn_agg': np.sum} if case['agg'] == 'sum' else {}
     if case.get('purity', True):
-        r, prob = purity('voltage.stack(data, word' + (', fcn_agg=np.sum)' if kw else ')'), voltage.stack, (data, word), kw,
+        r, prob = purity(f'voltage.stack(data, word' + (', fcn_agg=np.sum)' if kw else ')') + f' [form {form}]', voltage.stack, sargs, skw,
                          names=('data', 'word'))
         if prob:
             return prob
         if isinstance(r, Exception):
             return f'raised {type(r).__name__}: {r}'
-        st, fold = r
+        st, fold = np.asarray(r[0], dtype=np.float64), r[1]
         # with a header: same stack and fold, aggregated header = per-label mean.  The unchanged code adds the key
         # 'stack_word' to the caller's dict (recorded in PURITY_STATS, not a demand); calling again with the same dict
         # must still give the same result.
         hvals = data[:, 0] * 0.5 + 1.0
-        r, prob = purity('voltage.stack(data, word, header={"h": …}' + (', fcn_agg=np.sum)' if kw else ')'), voltage.stack,
-                         (data, word), dict(kw, header={'h': hvals.copy()}), names=('data', 'word'))
+        r, prob = purity('voltage.stack(data, word, header={"h": …}' + (', fcn_agg=np.sum)' if kw else ')') + f' [form {form}]',
+                         voltage.stack, sargs, dict(skw, header={'h': hvals.copy()}), names=('data', 'word'))
         if prob:
             return prob
         if isinstance(r, Exception):
             return f'with a header: raised {type(r).__name__}: {r}'
-        st_h, hs = r
+        st_h, hs = np.asarray(r[0], dtype=np.float64), r[1]
         if not _close_result(st_h, st) or 'fold' not in hs or not _close_result(hs['fold'], fold):
             return 'with a header the stack / fold differ from the call without header'
         labels_h = sorted(set(case['word']))
@@ -513,7 +626,8 @@ def oracle_stack(case):
             return f'aggregated header {hs.get("h")} is not the per-label mean {want_h}'
     else:
         try:
-            st, fold = voltage.stack(data, word, **kw)
+            st, fold = voltage.stack(*sargs, **skw)
+            st = np.asarray(st, dtype=np.float64)
         except Exception as e:
             return f'raised {type(e).__name__}: {e}'
     groups = {}
@@ -527,7 +641,7 @@ def oracle_stack(case):
             return f'fold of label {g} is {int(fold[i])}, it occurs {len(groups[g])} times'
         blk = np.array(groups[g], dtype=np.float64)
         want = blk.sum(axis=0) if case['agg'] == 'sum' else blk.sum(axis=0) / len(groups[g])
-        if not np.allclose(st[i], want, rtol=1e-12, atol=1e-9):
+        if not np.allclose(st[i], want, rtol=1e-6 if _single(form.get('data', '')) else 1e-12, atol=1e-9):
             return f'row {i} (label {g}) is {st[i].tolist()}, aggregate of its {len(groups[g])} traces is {want.tolist()}'
     return None
 
@@ -631,29 +745,43 @@ def _rollen_impl(n, wl, window='flat'):
 
 
 def oracle_rolling(case):
-    """Length kept for every window length <= n; constants unchanged."""
+    """Length kept for every window length <= n; constants unchanged — for every input form (dtype / list, spelling)."""
     from ibldsp import smooth
     n, wl, win = case['n'], case['wl'], case.get('window', 'flat')
     if wl > n:
         return None
-    x = np.array(case['x'], dtype=float) if 'x' in case else np.cos(np.arange(n) * 0.7) * 3 + 1
+    form = case.get('form') or {}
+    fx, sp = form.get('x', 'float64'), form.get('spelling', 'kw')
+    xv = np.array(case['x'], dtype=float) if 'x' in case else np.cos(np.arange(n) * 0.7) * 3 + 1
+    if _int_form(fx):
+        xv = np.round(xv * 10)
+    desc = f'smooth.rolling_window(x[{fx}], {wl}, {win!r})' + (' (positional)' if sp == 'pos' else ' (keywords)')
+
+    def argsfor(values):
+        return _spell(sp, (_form1d(values, fx),), [('window_len', wl), ('window', win)])
+    args, kw = argsfor(xv)
     if case.get('purity', True):
-        y, prob = purity(f'smooth.rolling_window(x, {wl}, {win!r})', smooth.rolling_window, (x, wl, win), names=('x',))
+        y, prob = purity(desc, smooth.rolling_window, args, kw, names=('x',))
         if prob:
             return prob
         if isinstance(y, Exception):
-            return f'raised {type(y).__name__}: {y}'
+            return f'{desc} raised {type(y).__name__}: {y}'
     else:
         try:
-            y = smooth.rolling_window(x, wl, win)
+            y = smooth.rolling_window(*args, **kw)
         except Exception as e:
-            return f'raised {type(e).__name__}: {e}'
+            return f'{desc} raised {type(e).__name__}: {e}'
     if len(y) != n:
-        return f'output has {len(y)} samples for an input of {n} (window_len={wl})'
-    c = 2.75
-    y = smooth.rolling_window(np.full(n, c), wl, win)
-    if len(y) != n or np.max(np.abs(y - c)) > 1e-9:
-        return f'constant {c} is returned as {y[:4].tolist()}… (window_len={wl}, {win})'
+        return f'{desc}: output has {len(y)} samples for an input of {n}'
+    consts = case.get('consts') or ([7, 1, 32767, -5] if _int_form(fx) else [2.75, -1.5])
+    for c in consts:
+        a_, k_ = argsfor(np.full(n, c))
+        try:
+            y = np.asarray(smooth.rolling_window(*a_, **k_), dtype=float)
+        except Exception as e:
+            return f'{desc} on the constant {c} raised {type(e).__name__}: {e}'
+        if len(y) != n or np.max(np.abs(y - c)) > (1e-6 if _single(fx) else 1e-9) * max(1.0, abs(c)):
+            return f'{desc}: the constant {c} ({n} samples) is returned as {y[:4].tolist()}…'
     return None
 
 
@@ -676,30 +804,40 @@ def _lp_impl(x, pad, kind):
 
 
 def oracle_lp(case):
-    """Length kept and constants unchanged (real frequency-domain filter); lpad = 0 is the recorded finding."""
+    """Length kept and constants unchanged (real frequency-domain filter) for every array dtype; lpad = 0 is the recorded finding."""
     from ibldsp import smooth
     n, pad = case['n'], case['pad']
     if int(np.ceil(n * pad)) == 0:
         return None
     fac = case.get('fac', [0.1, 0.2])
-    x = np.sin(np.arange(n) * 0.3) + 0.5
+    form = case.get('form') or {}
+    fx, sp = form.get('x', 'float64'), form.get('spelling', 'kw')
+    xv = np.sin(np.arange(n) * 0.3) + 0.5
+    if _int_form(fx):
+        xv = np.round(xv * 100)
+    desc = f'smooth.lp(ts[{fx}], {fac}, pad={pad})' + (' (positional)' if sp == 'pos' else ' (keywords)')
+
+    def argsfor(values):
+        return _spell(sp, (_form1d(values, fx), list(fac)), [('pad', pad)])
+    args, kw = argsfor(xv)
     if case.get('purity', True):
-        y, prob = purity(f'smooth.lp(ts, {fac}, pad={pad})', smooth.lp, (x, list(fac)), {'pad': pad}, names=('ts', 'fac'))
+        y, prob = purity(desc, smooth.lp, args, kw, names=('ts', 'fac'))
         if prob:
             return prob
         if isinstance(y, Exception):
-            return f'raised {type(y).__name__}: {y}'
+            return f'{desc} raised {type(y).__name__}: {y}'
     else:
         try:
-            y = smooth.lp(x, fac, pad=pad)
+            y = smooth.lp(*args, **kw)
         except Exception as e:
-            return f'raised {type(e).__name__}: {e}'
+            return f'{desc} raised {type(e).__name__}: {e}'
     if len(y) != n:
-        return f'output has {len(y)} samples for an input of {n} (pad={pad})'
-    c = -1.5
-    y = smooth.lp(np.full(n, c), fac, pad=pad)
-    if len(y) != n or np.max(np.abs(y - c)) > 1e-9:
-        return f'constant {c} is returned as {y[:4].tolist()}… (n={n}, pad={pad}, fac={fac})'
+        return f'{desc}: output has {len(y)} samples for an input of {n}'
+    for c in ([7, -3] if _int_form(fx) else [-1.5]):
+        a_, k_ = argsfor(np.full(n, c))
+        y = np.asarray(smooth.lp(*a_, **k_), dtype=float)
+        if len(y) != n or np.max(np.abs(y - c)) > (1e-6 if _single(fx) else 1e-9) * max(1.0, abs(c)):
+            return f'{desc}: the constant {c} ({n} samples) is returned as {y[:4].tolist()}…'
     return None
 
 
@@ -756,27 +894,40 @@ def oracle_savgol(case):
     if w % 2 == 0 or p >= w or len(x) < w or (len(x) == w and w >= 3):
         return None
     co = np.array(case.get('coef', [0.5, -1.0, 0.25, 0.1][:p + 1]), dtype=float)[:p + 1]
-    xc = x - x.mean()
-    y = np.polyval(co[::-1], xc)
+    form = case.get('form') or {}
+    fx, fy, sp = form.get('x', 'float64'), form.get('y', 'float64'), form.get('spelling', 'pos')
+    if {fx, fy} <= {'float64', 'list_float'}:
+        xc = x - x.mean()
+        y = np.polyval(co[::-1], xc)
+    else:
+        # forms that only hold integers (or 24-bit mantissas) exactly: the same irregular spacing on an integer grid,
+        # integer coefficients about the middle sample, degree <= 2 (values stay below 2^15)
+        x = np.cumsum(np.clip(np.round(np.diff(x, prepend=x[0] - 1.0) * 2), 1, 3))
+        co = np.round(co[:3] * 2)
+        xc = x - x[len(x) // 2]
+        y = np.polyval(co[::-1], xc)
+    desc = f'smooth.non_uniform_savgol(x[{fx}], y[{fy}], {w}, {p})' + (' (positional)' if sp == 'pos' else ' (window=, polynom= keywords)')
+    args, kw = _spell(sp, (_form1d(x, fx), _form1d(y, fy)), [('window', w), ('polynom', p)])
     if case.get('purity', True):
-        ys, prob = purity(f'smooth.non_uniform_savgol(x, y, {w}, {p})', smooth.non_uniform_savgol, (x, y, w, p), names=('x', 'y'))
+        ys, prob = purity(desc, smooth.non_uniform_savgol, args, kw, names=('x', 'y'))
         if prob:
             return prob
         if isinstance(ys, Exception):
-            return f'raised {type(ys).__name__}: {ys}'
+            return f'{desc} raised {type(ys).__name__}: {ys}'
     else:
         try:
-            ys = smooth.non_uniform_savgol(x, y, w, p)
+            ys = smooth.non_uniform_savgol(*args, **kw)
         except Exception as e:
-            return f'raised {type(e).__name__}: {e}'
+            return f'{desc} raised {type(e).__name__}: {e}'
+    ys = np.asarray(ys, dtype=float)
     if len(ys) != len(y):
         return f'{len(ys)} output samples for {len(y)} input samples'
     scale = max(1.0, float(np.max(np.abs(y))))
     err = np.abs(ys - y)
     if not np.all(np.isfinite(ys)) or np.max(err) > 1e-6 * scale:
         i = int(np.nanargmax(np.where(np.isfinite(err), err, np.inf)))
-        return (f'polynomial of degree {len(co) - 1} (coefficients {co.tolist()} about the mean abscissa) is not reproduced at '
-                f'sample {i}: got {ys[i]!r}, expected {y[i]!r} (window={w}, polynom={p})')
+        return (f'{desc}: polynomial of degree {len(co) - 1} (coefficients {co.tolist()}, x = {np.asarray(x).tolist()[:6]}…) is not '
+                f'reproduced at sample {i}: got {float(ys[i])!r}, expected {float(y[i])!r}')
     return None
 
 
@@ -815,10 +966,15 @@ def oracle_sinterp(case):
     good = int(np.sum(~np.isnan(sig)))
     if good <= case['window'] or good < 4:
         return None
+    form = case.get('form') or {}
+    fx = form.get('x', 'float64')
+    sarg = [float(v) for v in sig] if fx == 'list_float' else sig.astype(fx)
+    args, kw = _spell(form.get('spelling', 'kw'), (sarg,), [('window', case['window']), ('order', case['order'])])
+    if fx == 'list_float':
+        sarg = np.array(sarg)       # np.copy(list) is what the function works on
     if case.get('purity', True):
-        out, prob = purity(f"smooth.smooth_interpolate_savgol(signal, window={case['window']}, order={case['order']})",
-                           smooth.smooth_interpolate_savgol, (sig,), {'window': case['window'], 'order': case['order']},
-                           names=('signal',))
+        out, prob = purity(f"smooth.smooth_interpolate_savgol(signal[{fx}], window={case['window']}, order={case['order']})",
+                           smooth.smooth_interpolate_savgol, args, kw, names=('signal',))
         if prob:
             return prob
         if isinstance(out, Exception):
@@ -826,9 +982,10 @@ def oracle_sinterp(case):
     else:
         try:
             with np.errstate(all='ignore'):
-                out = smooth.smooth_interpolate_savgol(sig, window=case['window'], order=case['order'])
+                out = smooth.smooth_interpolate_savgol(*args, **kw)
         except Exception as e:
             return f'raised {type(e).__name__}: {e}'
+    out = np.asarray(out, dtype=float)
     if len(out) != len(sig):
         return f'{len(out)} output samples for {len(sig)} input samples'
     if not np.all(np.isfinite(out)):
@@ -906,6 +1063,21 @@ def oracle_cadzow(case):
     nf = 3
     W = rng.standard_normal((len(x), nf)) + 1j * rng.standard_normal((len(x), nf))
     full = min(_shape(lay))
+    form = case.get('form') or {}
+    fw, fm, fxy, sp = form.get('wav', 'complex128'), form.get('mem', 'C'), form.get('xy', 'float64'), form.get('spelling', 'kw')
+    tol = TOL_ID * (1e5 if _single(fw) else 1.0)
+    xf, yf = _form1d(x, fxy), _form1d(y, fxy)
+    fdesc = f' [WAV {fw} {fm}, x/y {fxy}, {"positional" if sp == "pos" else "keywords"}]' if form else ''
+
+    def dargs(A, r):
+        lead = (_mem(np.asarray(A).astype(fw), fm), xf, yf)
+        return _spell(sp, lead, [('r', r), ('imax', None), ('niter', 1)]) if sp == 'pos' else (lead, {'r': r})
+
+    def dn(A, r):
+        a_, k_ = dargs(A, r)
+        with np.errstate(all='ignore'):
+            return np.asarray(cadzow.denoise(*a_, **k_), dtype=complex)
+    W = np.asarray(W.astype(fw), dtype=complex)          # the values the form can hold
     if case.get('purity', True):
         def other_geometry():
             cadzow.denoise(np.ones((len(x), 1), dtype=complex), y.copy(), x.copy(), 1)
@@ -913,28 +1085,29 @@ def oracle_cadzow(case):
                           before=other_geometry)
         if prob:
             return prob
-        out, prob = purity(f'cadzow.denoise(WAV, x, y, r={full})', cadzow.denoise, (W, x, y), {'r': full}, names=('WAV', 'x', 'y'),
+        a_, k_ = dargs(W, full)
+        out, prob = purity(f'cadzow.denoise(WAV, x, y, r={full}){fdesc}', cadzow.denoise, a_, k_, names=('WAV', 'x', 'y'),
                            before=other_geometry)
         if prob:
             return prob
         if isinstance(out, Exception):
-            return f'full rank: raised {type(out).__name__}: {out}'
+            return f'full rank{fdesc}: raised {type(out).__name__}: {out}'
+        out = np.asarray(out, dtype=complex)
     else:
         try:
-            with np.errstate(all='ignore'):
-                out = cadzow.denoise(W, x, y, r=full)
+            out = dn(W, full)
         except Exception as e:
-            return f'full rank: raised {type(e).__name__}: {e}'
-    if out.shape != W.shape or not np.allclose(out, W, atol=TOL_ID, rtol=0):
-        return f'full rank r={full}: output differs from input by {float(np.max(np.abs(out - W))):.3g}'
+            return f'full rank{fdesc}: raised {type(e).__name__}: {e}'
+    if out.shape != W.shape or not np.allclose(out, W, atol=tol, rtol=0):
+        return f'full rank r={full}{fdesc}: output differs from input by {float(np.max(np.abs(out - W))):.3g}'
     if not _is_dense(lay):
         return None
     kx, ky = case.get('k', [0.013, -0.021])
     amp = rng.standard_normal(nf) + 1j * rng.standard_normal(nf)
     P = np.exp(1j * (kx * x + ky * y))[:, None] * amp[None, :]
-    out = cadzow.denoise(P, x, y, r=1)
-    if not np.allclose(out, P, atol=TOL_ID, rtol=0):
-        return f'plane wave (kx={kx}, ky={ky}) at rank 1: output differs from input by {float(np.max(np.abs(out - P))):.3g}'
+    out = dn(P, 1)
+    if not np.allclose(out, P, atol=tol, rtol=0):
+        return f'plane wave (kx={kx}, ky={ky}) at rank 1{fdesc}: output differs from input by {float(np.max(np.abs(out - P))):.3g}'
     # ranks 1..full: a superposition of rho plane waves has a trajectory matrix of rank <= rho
     rho = int(rng.integers(1, min(3, full) + 1))
     r = int(rng.integers(rho, full + 1))
@@ -942,12 +1115,12 @@ def oracle_cadzow(case):
     for _ in range(rho):
         k2 = rng.uniform(-0.03, 0.03, 2)
         S += np.exp(1j * (k2[0] * x + k2[1] * y))[:, None] * (rng.standard_normal(nf) + 1j * rng.standard_normal(nf))[None, :]
-    out = cadzow.denoise(S, x, y, r=r)
-    if not np.allclose(out, S, atol=TOL_ID * 10, rtol=0):
+    out = dn(S, r)
+    if not np.allclose(out, S, atol=tol * 10, rtol=0):
         return f'{rho} plane waves at rank {r} (>= {rho}): output differs from input by {float(np.max(np.abs(out - S))):.3g}'
     if full >= 4 and len(x) >= 16:       # calibrated: ratio <= 0.56 over 150 seeds on every 16-site layout, up to 0.79 on 8 sites
         N = 0.3 * (rng.standard_normal(P.shape) + 1j * rng.standard_normal(P.shape))
-        out = cadzow.denoise(P + N, x, y, r=1)
+        out = dn(P + N, 1)
         ratio = float(np.sum(np.abs(out - P) ** 2) / np.sum(np.abs(N) ** 2))
         if not ratio < 1:
             return f'noise energy ratio after rank-1 denoising is {ratio:.3f} (not < 1)'
@@ -961,20 +1134,34 @@ def oracle_svd(case):
     nc, ns, rho = case['nc'], case['ns'], case['rho']
     coll = None if case.get('collection') is None else np.array(case['collection'], dtype=int)
     D = rng.standard_normal((nc, ns))
+    form = case.get('form') or {}
+    fd, fm, sp = form.get('dtype', 'float64'), form.get('mem', 'C'), form.get('spelling', 'kw')
+    tolf = 1e5 if _single(fd) else 1.0
+    fdesc = f' [datr {fd} {fm}, {"positional" if sp == "pos" else "keywords"}]' if form else ''
+
+    def sargs(A, r, c):
+        return _spell(sp, (_mem(np.asarray(A).astype(fd), fm),), [('rank', r), ('collection', c)])
+
+    def sv(A, r, c=None):
+        a_, k_ = sargs(A, r, c)
+        return np.asarray(voltage.svd_denoise_npx(*a_, **k_), dtype=float)
+    D = np.asarray(D.astype(fd), dtype=float)
     if case.get('purity', True):
-        out, prob = purity(f'voltage.svd_denoise_npx(datr, rank={nc}, collection=…)', voltage.svd_denoise_npx, (D,),
-                           {'rank': nc, 'collection': coll}, names=('datr',))
+        a_, k_ = sargs(D, nc, coll)
+        out, prob = purity(f'voltage.svd_denoise_npx(datr, rank={nc}, collection=…){fdesc}', voltage.svd_denoise_npx, a_, k_,
+                           names=('datr',))
         if prob:
             return prob
         if isinstance(out, Exception):
-            return f'raised {type(out).__name__}: {out}'
+            return f'raised {type(out).__name__}: {out}{fdesc}'
+        out = np.asarray(out, dtype=float)
     else:
         try:
-            out = voltage.svd_denoise_npx(D, rank=nc, collection=coll)
+            out = sv(D, nc, coll)
         except Exception as e:
-            return f'raised {type(e).__name__}: {e}'
-    if out.shape != D.shape or not np.allclose(out, D, atol=TOL_ID, rtol=0):
-        return f'full rank (rank=nc={nc}): output differs from input by {float(np.max(np.abs(out - D))):.3g}'
+            return f'raised {type(e).__name__}: {e}{fdesc}'
+    if out.shape != D.shape or not np.allclose(out, D, atol=TOL_ID * tolf, rtol=0):
+        return f'full rank (rank=nc={nc}){fdesc}: output differs from input by {float(np.max(np.abs(out - D))):.3g}'
     if case.get('rank'):
         # intermediate ranks: the overall rank is shared between the collections in proportion of their sizes
         # (floor, exact integers); data whose rank per collection equals that share must be returned unchanged
@@ -989,36 +1176,39 @@ def oracle_svd(case):
             shares[int(col)] = share
             if share > 0:
                 X[idx, :] = rng.standard_normal((len(idx), share)) @ rng.standard_normal((share, nsr))
+        X = np.asarray(X.astype(fd), dtype=float)
         if case.get('purity', True):
-            out, prob = purity(f'voltage.svd_denoise_npx(datr, rank={r}, collection=…)', voltage.svd_denoise_npx, (X,),
-                               {'rank': r, 'collection': coll}, names=('datr',))
+            a_, k_ = sargs(X, r, coll)
+            out, prob = purity(f'voltage.svd_denoise_npx(datr, rank={r}, collection=…){fdesc}', voltage.svd_denoise_npx, a_, k_,
+                               names=('datr',))
             if prob:
                 return prob
             if isinstance(out, Exception):
-                return f'raised {type(out).__name__}: {out}'
+                return f'raised {type(out).__name__}: {out}{fdesc}'
+            out = np.asarray(out, dtype=float)
         else:
             try:
-                out = voltage.svd_denoise_npx(X, rank=r, collection=coll)
+                out = sv(X, r, coll)
             except Exception as e:
-                return f'raised {type(e).__name__}: {e}'
-        scale = max(1.0, float(np.max(np.abs(X))))
+                return f'raised {type(e).__name__}: {e}{fdesc}'
+        scale = max(1.0, float(np.max(np.abs(X)))) * tolf
         if out.shape != X.shape or not np.allclose(out, X, atol=TOL_ID * scale, rtol=0):
             bad = [int(c) for c in np.unique(cvals)
                    if not np.allclose(out[cvals == c], X[cvals == c], atol=TOL_ID * scale, rtol=0)]
-            return (f'nc={nc}, requested rank {r}: data whose rank per collection equals its share {shares} (floor(rank*size/nc)) '
+            return (f'nc={nc}, requested rank {r}{fdesc}: data whose rank per collection equals its share {shares} (floor(rank*size/nc)) '
                     f'is not returned unchanged in collection(s) {bad}: max deviation {float(np.max(np.abs(out - X))):.3g} '
                     f'(output rank {[int(np.linalg.matrix_rank(out[cvals == c])) for c in bad]})')
     L = rng.standard_normal((nc, rho)) @ rng.standard_normal((rho, ns))
     for r in (rho, rho + 1):
         if r > nc or r == 0:
             continue
-        out = voltage.svd_denoise_npx(L, rank=r)
-        if not np.allclose(out, L, atol=TOL_ID * max(1.0, float(np.max(np.abs(L)))), rtol=0):
-            return f'data of rank {rho}, requested rank {r}: output differs from input by {float(np.max(np.abs(out - L))):.3g}'
+        out = sv(L, r)
+        if not np.allclose(out, L, atol=TOL_ID * tolf * max(1.0, float(np.max(np.abs(L)))), rtol=0):
+            return f'data of rank {rho}, requested rank {r}{fdesc}: output differs from input by {float(np.max(np.abs(out - L))):.3g}'
     # calibrated: expected ratio ~ rho (nc + ns) / (nc ns); only well-separated cases (<= 0.4) are demanded, a 4 x 4 rank-1 case reached 1.39
     if rho >= 1 and 4 * rho <= min(nc, ns) and max(nc, ns) >= 2 * min(nc, ns):
         N = 0.2 * rng.standard_normal(L.shape)
-        out = voltage.svd_denoise_npx(L + N, rank=rho)
+        out = sv(L + N, rho)
         ratio = float(np.sum((out - L) ** 2) / np.sum(N ** 2))
         if not ratio < 1:
             return f'noise energy ratio after rank-{rho} denoising is {ratio:.3f} (not < 1)'
@@ -1093,6 +1283,8 @@ def correspondence(ctx):
     # ---- venn
     for i in range(ctx.n(700, 6000)):
         case = _venn_case(rng)
+        if i % 2 == 1:
+            case['form'] = _draw_form(rng, 'venn')
         impl = _venn_impl(case)
         mx = max([p[0] for s in case['sorters'] for p in s] + [0])
         eff = case['chunk'] or 20 * case['fs']
@@ -1108,25 +1300,34 @@ def correspondence(ctx):
                               'venn_default_params' if case['chunk'] == 0 else
                               ('venn_chunk<bin' if case['chunk'] < max(case['sbin'], 1) else
                                'venn_chunk%bin!=0' if case['chunk'] % max(case['sbin'], 1) else 'venn_chunk%bin=0'),
-                              'venn_err' if impl.startswith('err') else 'venn_ok'))
+                              'venn_err' if impl.startswith('err') else 'venn_ok') + _form_tags('venn', case.get('form')))
         add(_venn_line(case), fn)
         if i % 4 == 0:
-            r = oracle_venn(case)
-            ctx.compare('venn-seq', dict(case, op='venn-seq'), r or 'ok', 'ok', nontrivial=(nchunks >= 2), tags=('venn-seq',))
+            c2 = dict(case, form=_draw_form(rng, 'venn'))
+            r = oracle_venn(c2)
+            ctx.compare('venn-seq', dict(c2, op='venn-seq'), r or 'ok', 'ok', nontrivial=(nchunks >= 2),
+                        tags=('venn-seq',) + _form_tags('venn', c2['form']))
 
     lap('venn real')
     # ---- stack, svd plan
     for i in range(ctx.n(400, 3000)):
         case = _stack_case(rng)
+        if i % 2 == 1:
+            fm_ = _draw_form(rng, 'stack')
+            if case['agg'] != 'sum':
+                fm_['data'] = 'float64'          # bit-exact comparison of the means; other dtypes go through the value oracle
+            case['form'] = fm_
         impl = _stack_impl(case)
         rep = len(set(case['word'])) < len(case['word'])
         if i % 3 == 0 and not case['mismatch']:
-            r = oracle_stack(case)
-            ctx.compare('stack-seq', dict(case, op='stack-seq'), r or 'ok', 'ok', nontrivial=rep, tags=('stack-seq',))
+            c2 = dict(case, form=_draw_form(rng, 'stack'))
+            r = oracle_stack(c2)
+            ctx.compare('stack-seq', dict(c2, op='stack-seq'), r or 'ok', 'ok', nontrivial=rep,
+                        tags=('stack-seq',) + _form_tags('stack', c2['form']))
         add(_stack_line(case), lambda ans, case=case, impl=impl, rep=rep: ctx.compare(
             'stack', dict(case, op='stack'), impl, ans, nontrivial=rep,
             tags=('stack', 'stack_' + case['agg'], 'stack_mismatch' if case['mismatch'] else 'stack_groups=%s' % (
-                '1' if len(set(case['word'])) == 1 else '2..4' if len(set(case['word'])) <= 4 else '>4'))))
+                '1' if len(set(case['word'])) == 1 else '2..4' if len(set(case['word'])) <= 4 else '>4')) + _form_tags('stack', case.get('form'))))
     for i in range(ctx.n(200, 1500)):
         case = _plan_case(rng)
         impl = _plan_impl(case, rng)
@@ -1173,9 +1374,19 @@ def correspondence(ctx):
                         tags=('rolling', 'rolling_' + win))
         add(f'rolling {_bl(_window(win, wl))} {_bl(x)}', fn)
         if i % 3 == 0:
-            r = oracle_rolling({'n': n, 'wl': wl, 'window': win, 'x': x.tolist()})
-            ctx.compare('rolling-seq', {'op': 'rolling-seq', 'n': n, 'wl': wl, 'window': win, 'x': x.tolist()}, r or 'ok', 'ok',
-                        tags=('rolling-seq',))
+            c2 = {'n': n, 'wl': wl, 'window': win, 'x': x.tolist(), 'form': _draw_form(rng, 'rolling')}
+            r = oracle_rolling(c2)
+            ctx.compare('rolling-seq', dict(c2, op='rolling-seq'), r or 'ok', 'ok', tags=('rolling-seq',) + _form_tags('rolling', c2['form']))
+    # constants: every window name x every window length 3..23 x every input form (dtype / list, spelling)
+    for win in WINDOWS:
+        for wl in range(3, 24):
+            for j, fx in enumerate(F1D):
+                if not ctx.quick or (wl + j) % 2 == 0:
+                    c2 = {'n': wl + int(rng.integers(0, 6)), 'wl': wl, 'window': win, 'purity': bool((wl + j) % 4 == 0),
+                          'form': {'x': fx, 'spelling': 'pos' if (wl + j) % 3 == 0 else 'kw'}}
+                    r = oracle_rolling(c2)
+                    ctx.compare('rolling-const', dict(c2, op='rolling-const'), r or 'ok', 'ok',
+                                tags=('rolling-const',) + _form_tags('rolling', c2['form']))
 
     # ---- lp: lpad, pad/crop with an exact stand-in for ft.lp
     for i in range(ctx.n(300, 2500)):
@@ -1193,9 +1404,10 @@ def correspondence(ctx):
     # the real filter: length and constants (oracle statement, no model involved)
     for i in range(ctx.n(60, 400)):
         case = {'family': 'lp', 'n': int(rng.integers(2, 400)), 'pad': float(rng.choice([0.2, 0.05, 0.5, 1.0, float(rng.uniform(0.01, 1))])),
-                'fac': [0.1, 0.2] if rng.random() < 0.5 else sorted(rng.uniform(0.02, 0.9, 2).tolist())}
+                'fac': [0.1, 0.2] if rng.random() < 0.5 else sorted(rng.uniform(0.02, 0.9, 2).tolist()),
+                'form': _draw_form(rng, 'lp')}
         r = oracle_lp(case)
-        ctx.compare('lp-real', dict(case, op='lp-real'), r or 'ok', 'ok', tags=('lp-real',))
+        ctx.compare('lp-real', dict(case, op='lp-real'), r or 'ok', 'ok', tags=('lp-real',) + _form_tags('lp', case['form']))
 
     lap('rolling/lp real')
     # ---- savgol
@@ -1225,9 +1437,11 @@ def correspondence(ctx):
     for i in range(ctx.n(120, 1000)):
         case = _savgol_case(rng)
         case['coef'] = rng.uniform(-1, 1, case['polynom'] + 1).tolist() if case['polynom'] < 12 else [1.0]
+        case.pop('y', None)
+        case['form'] = _draw_form(rng, 'savgol')
         r = oracle_savgol(case)
         ctx.compare('savgol-poly', dict(case, op='savgol-poly'), r or 'ok', 'ok',
-                    nontrivial=len(case['x']) > case['window'], tags=('savgol-poly',))
+                    nontrivial=len(case['x']) > case['window'], tags=('savgol-poly',) + _form_tags('savgol', case['form']))
 
     # ---- smooth_interpolate_savgol
     for i in range(ctx.n(120, 1000)):
@@ -1240,8 +1454,9 @@ def correspondence(ctx):
         except Exception as e:
             out = _err(e)
         if i % 2 == 0:
-            r = oracle_sinterp(case)
-            ctx.compare('sinterp-seq', dict(case, op='sinterp-seq'), r or 'ok', 'ok', tags=('sinterp-seq',))
+            c2 = dict(case, form=_draw_form(rng, 'sinterp'))
+            r = oracle_sinterp(c2)
+            ctx.compare('sinterp-seq', dict(c2, op='sinterp-seq'), r or 'ok', 'ok', tags=('sinterp-seq',) + _form_tags('sinterp', c2['form']))
         line = f"sinterp {case['window']} {case['order']} " + ','.join('n' if v is None else _bits(v) for v in case['signal'])
 
         def fn(ans, case=case, out=out, sig=sig):
@@ -1324,10 +1539,10 @@ def correspondence(ctx):
     for lay in sel:
         case = {'family': 'cadzow', 'layout': lay, 'seed': int(rng.integers(0, 2 ** 31)),
                 'k': [float(rng.uniform(-0.03, 0.03)), float(rng.uniform(-0.03, 0.03))],
-                'purity': bool(len(lay['x']) <= 40 or rng.random() < 0.15)}
+                'purity': bool(len(lay['x']) <= 40 or rng.random() < 0.15), 'form': _draw_form(rng, 'cadzow')}
         r = oracle_cadzow(case)
         ctx.compare('cadzow-real', dict(case, op='cadzow-real'), r or 'ok', 'ok',
-                    tags=('cadzow-real', 'cadzow_' + lay['kind']))
+                    tags=('cadzow-real', 'cadzow_' + lay['kind']) + _form_tags('cadzow', case['form']))
         if len(extra) < ctx.n(4, 12):
             extra.append(lay)
     rk_lines, rk_impl, rk_desc = [], [], []
@@ -1360,20 +1575,21 @@ def correspondence(ctx):
         if rng.random() < 0.5:
             coll = [int(v) for v in rng.integers(0, int(rng.integers(1, 5)), nc)]
         case = {'family': 'svd', 'nc': nc, 'ns': ns, 'rho': int(rng.integers(1, max(2, min(nc, ns) // 2))), 'collection': coll,
-                'rank': int(rng.integers(1, nc + 1)), 'seed': int(rng.integers(0, 2 ** 31))}
+                'rank': int(rng.integers(1, nc + 1)), 'seed': int(rng.integers(0, 2 ** 31)), 'form': _draw_form(rng, 'svd')}
         r = oracle_svd(case)
         ctx.compare('svd-real', dict(case, op='svd-real'), r or 'ok', 'ok',
                     tags=('svd-real', 'svd_collections' if coll else 'svd_single',
-                          'svd_rank=nc' if case['rank'] == nc else 'svd_rank=1' if case['rank'] == 1 else 'svd_1<rank<nc'))
+                          'svd_rank=nc' if case['rank'] == nc else 'svd_rank=1' if case['rank'] == 1 else 'svd_1<rank<nc')
+                    + _form_tags('svd', case['form']))
     # larger channel counts with intermediate ranks (single collection and per-shank style splits)
     for i in range(ctx.n(10, 200)):
         nc = int(rng.integers(8, ctx.n(97, 161)))
         coll = None if rng.random() < 0.5 else sorted(int(v) for v in rng.integers(0, int(rng.integers(2, 5)), nc))
         case = {'family': 'svd', 'nc': nc, 'ns': nc + 2, 'rho': 1, 'collection': coll, 'rank': int(rng.integers(2, nc)),
-                'seed': int(rng.integers(0, 2 ** 31))}
+                'seed': int(rng.integers(0, 2 ** 31)), 'form': _draw_form(rng, 'svd')}
         r = oracle_svd(case)
         ctx.compare('svd-real', dict(case, op='svd-real'), r or 'ok', 'ok',
-                    tags=('svd-real', 'svd_collections' if coll else 'svd_single', 'svd_1<rank<nc', 'svd_nc>=8'))
+                    tags=('svd-real', 'svd_collections' if coll else 'svd_single', 'svd_1<rank<nc', 'svd_nc>=8') + _form_tags('svd', case['form']))
     lap('svd/cadzow numeric')
     # calibration of the noise oracle, recorded every run
     from ibldsp import cadzow as cz
@@ -1430,6 +1646,34 @@ def _candidates(ctx):
         if op == 'svdplan' and c.get('rank'):
             c['ns'] = c['nc'] + 2
         out.append(c)
+    # input forms: every window name x length x form for the constants; every form of every other family on small cases
+    for win in WINDOWS:
+        for wl in range(3, 24):
+            for fx in F1D:
+                for sp in ('kw', 'pos'):
+                    out.append({'family': 'rolling', 'n': wl + 2, 'wl': wl, 'window': win, 'form': {'x': fx, 'spelling': sp}})
+    for fx in ('float64', 'float32', 'int16', 'int64'):
+        for sp in ('kw', 'pos'):
+            for n in (3, 10, 37):
+                out.append({'family': 'lp', 'n': n, 'pad': 0.2, 'form': {'x': fx, 'spelling': sp}})
+    for fx in F1D:
+        for fy in F1D:
+            for (w, p_) in ((3, 1), (5, 2), (7, 3)):
+                out.append({'family': 'savgol', 'window': w, 'polynom': p_, 'x': np.cumsum(rng.uniform(0.3, 1.7, w + 4)).tolist(),
+                            'form': {'x': fx, 'y': fy, 'spelling': str(rng.choice(['kw', 'pos']))}})
+    for _ in range(300):
+        out.append(dict(_venn_case(rng, small=True), form=_draw_form(rng, 'venn')))
+        c = _stack_case(rng)
+        c['mismatch'] = 0
+        out.append(dict(c, form=_draw_form(rng, 'stack')))
+    for _ in range(60):
+        out.append(dict(_sinterp_case(rng), form=_draw_form(rng, 'sinterp')))
+        nc = int(rng.integers(2, 13))
+        out.append({'family': 'svd', 'nc': nc, 'ns': 2 * nc + 1, 'rho': 1, 'rank': int(rng.integers(1, nc + 1)),
+                    'collection': [i % 2 for i in range(nc)], 'seed': 5, 'form': _draw_form(rng, 'svd')})
+    for _ in range(12):
+        out.append({'family': 'cadzow', 'layout': _layout(rng, 'dense', int(rng.integers(1, 4)), int(rng.integers(4, 9))), 'seed': 3,
+                    'form': _draw_form(rng, 'cadzow')})
     # sweep of (nc, requested rank, collection): suspects by the rank each collection receives, confirmed by the data oracle
     out += _allot_suspects()
     for _ in range(200):                       # and an unfiltered sample of intermediate ranks
@@ -1558,7 +1802,25 @@ def known_findings(ctx):
             return True
         return False
 
-    return {'lp-pad-zero': lp_pad_zero, 'savgol-window-equals-length': savgol_window_equals_length}
+    def venn_narrow_int_chunk():
+        from ibldsp import spiketrains
+        s, c = (np.array([300]), np.array([300])), (np.array([0]), np.array([0]))
+        kw = dict(samples_binsize=4, channels_binsize=4, num_channels=4)
+        with _quiet():
+            ref = spiketrains.spikes_venn2(s, c, chunk_size=100, **kw)
+            try:
+                got = spiketrains.spikes_venn2(s, c, chunk_size=np.uint8(100), **kw)
+            except Exception:
+                return True
+        return {k: int(v) for k, v in got.items()} != {k: int(v) for k, v in ref.items()}
+
+    def stack_int_mean_truncated():
+        from ibldsp import voltage
+        st, _ = voltage.stack(np.array([[1], [2]], dtype=np.int16), np.array([0, 0]))
+        return float(st[0, 0]) != 1.5
+
+    return {'lp-pad-zero': lp_pad_zero, 'savgol-window-equals-length': savgol_window_equals_length,
+            'venn-narrow-int-chunk': venn_narrow_int_chunk, 'stack-int-mean-truncated': stack_int_mean_truncated}
 
 
 LEVEL_TEXT = ('Lean 4 theorems: Venn conservation for any number of sorters, any bin sizes and ANY chunk size (and the total / region validity / '
